@@ -78,12 +78,17 @@ func runC19(c *core.Ctx) {
 func singleInsert(c *core.Ctx, lc *core.LockCache) {
 	const rule = "C19.single-insert"
 	fn := c.Func("bus/session", "Session", "client")
-	poll := c.Field("bus/session", "Session", "poll")
+	poll := fld(c, "bus/session", "Session", "poll")
 	if fn == nil || poll == nil {
 		c.Undecided(rule, "bus/session.Session.client", token.NoPos, "anchor not found")
 		return
 	}
 	class := core.LockClass{Owner: "bus/session.Session", Field: "pollMutex"}
+	if st := strct(c, "bus/session", "Session"); st != nil && poll != nil {
+		if cl, ok := guardOf(c, lc, "bus/session", st, poll, "pollMutex"); ok {
+			class = cl
+		}
+	}
 	lf := lc.Get(fn)
 	isPoll := func(v ssa.Value) bool {
 		p := core.AccessPath(v)
